@@ -1,6 +1,6 @@
 --------------------------- MODULE FileOps_Trace ---------------------------
 (* Trace validation for C14.  One line of fotraces.ndjson per case:             *)
-(*   [fs (the state a program was asked to plant), ev |-> << state, (op, ping)* >>] *)
+(*   [fs (the state a program was asked to plant; n = numbered files), ev |-> << state, (op, ping)* >>] *)
 (*   state   : obs      what the host sees through /proc/<init>/root            *)
 (*   open    : items <<[p, mode, mk]>>, err (whole call), res <<[fd, err, ident,*)
 (*             pident, kind, acc, cloexec]>>, blocked, post                     *)
@@ -15,9 +15,9 @@ N == Len(Traces)
 VARIABLES t, l, fs
 tvars == <<t, l, fs>>
 
-TInit == /\ t \in 1..N /\ l = 1 /\ fs = Traces[t].fs
+TInit == /\ t \in 1..N /\ l = 1 /\ fs = Internal(Traces[t].fs)
 
-EState(e) == Shows(e.obs, fs) /\ UNCHANGED fs
+EState(e) == Shows(e.obs, fs) /\ ShowsN(e.nobs, fs) /\ UNCHANGED fs
 
 (* result i of the call against item i *)
 ItemOK(r, it, exp, k) ==
@@ -26,12 +26,19 @@ ItemOK(r, it, exp, k) ==
               /\ r.ident # "" /\ r.ident = r.pident \* it IS the file at the requested path (no link followed)
               /\ r.acc = it.mode /\ r.cloexec)      \* with the requested access mode
   /\ (~r.fd => r.err # "")
+(* one pass over the batch: item i is judged in the state the items before it left behind *)
+WalkOpen(e) ==
+  FoldLeft(LAMBDA acc, i : LET r == OpenItem(acc.fs, e.items[i])
+                           IN [ok    |-> acc.ok /\ ItemOK(e.res[i], e.items[i], r.r, r.k),
+                               drift |-> acc.drift \/ (r.k = "unreadable" /\ ~e.res[i].fd),
+                               fs    |-> r.fs],
+           [ok |-> TRUE, drift |-> FALSE, fs |-> fs], [i \in 1..Len(e.items) |-> i])
 NormalOpen(e) ==
-  LET x == OpenBatch(fs, e.items) IN
   /\ e.err = "" /\ Len(e.res) = Len(e.items)
-  /\ \A i \in DOMAIN e.items : ItemOK(e.res[i], e.items[i], x.res[i], x.ks[i])
-  /\ Shows(e.post, x.fs) /\ fs' = x.fs
-  /\ ((\E i \in DOMAIN e.items : x.ks[i] = "unreadable" /\ ~e.res[i].fd) => TLCSet(N + t, 1))
+  /\ LET x == WalkOpen(e) IN
+       /\ x.ok
+       /\ Shows(e.post, x.fs) /\ ShowsN(e.npost, x.fs) /\ fs' = x.fs
+       /\ (x.drift => TLCSet(N + t, 1))
 EOpen(e) ==
   /\ ~e.blocked                                     \* never blocks (FIFO, socket, device)
   /\ IF Len(e.items) = 0
